@@ -19,6 +19,7 @@
   `C08_shutdown_statement`.
 -/
 import DDProofs.AutoProofs
+import DDProofs.AutoTemps
 open Std
 
 namespace DD
@@ -55,8 +56,11 @@ theorem C08_drop_wrap_id (a : AMgr) (h : Nat) (u : Int) (hi : AInv a)
       (∀ j : Nat, a2.handles[j]? = a.handles[j]?) :=
   drop_wrap_id a h u hi hf hu
 
-/-- the per-operation guarantee (`AKeeps`): invariant kept, no other handle touched, every
-live `Function` keeps its node and its meaning by variable name — for the listed methods -/
+/-- the per-operation guarantee: invariant kept (count equation included), no handle
+touched other than the new one(s), every live `Function` keeps its node and its meaning by
+variable name, whether the method returns or raises.
+`AKeeps h` : creates at most handle `h`;  `AKeeps0` : the registry ends exactly as it
+started (temporaries of `<=`, `<` released);  `AKeepsL [h1, h2]` : `succ`. -/
 def C08_ops_list (h : Nat) : Prop :=
   (∀ name, AKeeps h (aVar name h)) ∧
   (∀ b, AKeeps h (aConst b h)) ∧
@@ -68,13 +72,22 @@ def C08_ops_list (h : Nat) : Prop :=
   (∀ i, AKeeps h (aAddInt i h)) ∧
   (∀ hu, AKeeps h (aCopyBddSame hu h)) ∧
   (∀ pre ht hs rn q fa, AKeeps h (aImage pre ht hs rn q fa h)) ∧
+  (∀ src hu, AKeeps h (aCopyTo src hu h)) ∧
+  (∀ src hu, AKeeps h (aCopyBddTo src hu h)) ∧
   (∀ op hs ho, AKeeps h (fApply op hs ho h)) ∧
   (∀ high hs, AKeeps h (fChild high hs h)) ∧
   (∀ hs, AKeeps h (fCopy hs h)) ∧
+  (∀ hu h2, h ≠ h2 → AKeepsL [h, h2] (aSucc hu h h2)) ∧
+  (∀ hs ho, AKeeps0 (fEq hs ho)) ∧
+  (∀ hs ho, AKeeps0 (fNe hs ho)) ∧
+  (∀ hs ho, AKeeps0 (fLe hs ho)) ∧
+  (∀ hs ho, AKeeps0 (fLt hs ho)) ∧
   AKeeps h aCollectGarbage ∧
   (∀ o, AKeeps h (aReorder o)) ∧
+  (∀ r, AKeeps h (aConfigure r)) ∧
   (∀ ns, AKeeps h (aDeclare ns)) ∧
-  (∀ n l, AKeeps h (aAddVar n l))
+  (∀ n l, AKeeps h (aAddVar n l)) ∧
+  (∀ src names, AKeeps h (aCopyVars src names))
 
 /-- the unconditional statement -/
 def C08_ops_statement : Prop := ∀ h, C08_ops_list h
@@ -86,21 +99,41 @@ theorem C08_ops_of_coreSpecs (cs : CoreSpecs) : C08_ops_statement := fun h =>
    fun d hu => aLet_keeps cs d hu h, fun hu q fa => aQuantify_keeps cs hu q fa h,
    fun d => aCube_keeps cs d h, fun i => aAddInt_keeps i h, fun hu => aCopyBddSame_keeps hu h,
    fun pre ht hs rn q fa => aImage_keeps cs pre ht hs rn q fa h,
+   fun src hu => aCopyTo_keeps cs src hu h, fun src hu => aCopyBddTo_keeps cs src hu h,
    fun op hs ho => fApply_keeps cs op hs ho h, fun high hs => fChild_keeps high hs h,
-   fun hs => fCopy_keeps hs h, aCollectGarbage_keeps cs h, fun o => aReorder_keeps cs o h, fun ns => aDeclare_keeps cs ns h,
-   fun n l => aAddVar_keeps cs n l h⟩
+   fun hs => fCopy_keeps hs h, fun hu h2 hne => aSucc_keepsL hu h h2 hne,
+   fun hs ho => fEq_keeps0 hs ho, fun hs ho => fNe_keeps0 hs ho,
+   fun hs ho => fLe_keeps0 cs hs ho, fun hs ho => fLt_keeps0 cs hs ho,
+   aCollectGarbage_keeps cs h, fun o => aReorder_keeps cs o h, fun r => aConfigure_keeps r h,
+   fun ns => aDeclare_keeps cs ns h, fun n l => aAddVar_keeps cs n l h,
+   fun src names => aCopyVars_keeps cs src names h⟩
+
+/-- `find_or_add(var, low, high)` has no test of its own: the guarantee holds in every state
+in which the core `find_or_add` keeps the invariants for the level and children that the
+wrapper reads (documented precondition: level above both children) -/
+theorem C08_find_or_add (a : AMgr) (var : String) (hlow hhigh h : Nat)
+    (hfoa : ∀ level lo hi, (levelOfVar var a.m).1 = .ok level → (nodeAny hlow a).1 = .ok lo →
+      (nodeAny hhigh a).1 = .ok hi → CoreKeepsAt a.m (findOrAdd level lo hi)) :
+    AKeepsAt a h (aFindOrAdd var hlow hhigh h) :=
+  aFindOrAdd_keepsAt a var hlow hhigh h hfoa
 
 /-- the methods that need no hypothesis at all: `true`/`false`, `_add_int`, `copy_bdd` into
-the same manager, `low`/`high`, `copy.copy(f)` -/
+the same manager, `low`/`high`, `copy.copy(f)`, `succ`, `==`, `!=`, `configure` -/
 theorem C08_ops_unconditional (h : Nat) :
     (∀ b, AKeeps h (aConst b h)) ∧ (∀ i, AKeeps h (aAddInt i h)) ∧
     (∀ hu, AKeeps h (aCopyBddSame hu h)) ∧ (∀ high hs, AKeeps h (fChild high hs h)) ∧
-    (∀ hs, AKeeps h (fCopy hs h)) :=
+    (∀ hs, AKeeps h (fCopy hs h)) ∧
+    (∀ hu h2, h ≠ h2 → AKeepsL [h, h2] (aSucc hu h h2)) ∧
+    (∀ hs ho, AKeeps0 (fEq hs ho)) ∧ (∀ hs ho, AKeeps0 (fNe hs ho)) ∧
+    (∀ r, AKeeps h (aConfigure r)) :=
   ⟨fun b => aConst_keeps b h, fun i => aAddInt_keeps i h, fun hu => aCopyBddSame_keeps hu h,
-   fun high hs => fChild_keeps high hs h, fun hs => fCopy_keeps hs h⟩
+   fun high hs => fChild_keeps high hs h, fun hs => fCopy_keeps hs h,
+   fun hu h2 hne => aSucc_keepsL hu h h2 hne, fun hs ho => fEq_keeps0 hs ho,
+   fun hs ho => fNe_keeps0 hs ho, fun r => aConfigure_keeps r h⟩
 
-/-- histories: through any sequence of operations with the guarantee `AKeeps` (constructions,
-operators, traversals, collections, reorderings) and drops of *other* handles in any order,
+/-- histories: through any sequence of operations with the guarantee `AKeepsL` (constructions,
+operators, traversals, collections, reorderings; `AKeeps h x` gives `AKeepsL [h] x`, `AKeeps0 x`
+gives `AKeepsL [] x`) and drops of *other* handles in any order,
 the invariant holds and every protected live `Function` keeps its node and its meaning -/
 theorem C08_live_den (P : Nat → Prop) {a a' : AMgr} (hi : AInv a) (hr : AReach P a a') :
     AInv a' ∧ ∀ h, P h → ∀ u, a.handles[h]? = some u →
